@@ -64,6 +64,10 @@ var jsFiles = [][]string{
 		"{namespace shop.cart.shop}\n/** */\n{template .u}\nu{call com.example.x.com.v/}\n{/template}\n",
 		"{namespace com.example.x.com}\n/** */\n{template .v}\nv\n{/template}\n",
 		"{namespace aa.a.aaa.a}\n/** */\n{template .w}\nw\n{/template}\n"},
+	// 4: calls to templates whose names differ in letter case only, directives and functions -> imports
+	{"{namespace a}\n/** @param x */\n{template .t}\n{call ui.w.button data=\"all\"/}{call ui.w.Button data=\"all\"/}{call ui.W.button data=\"all\"/}{call ui.w.BUTTON data=\"all\"/}{$x|truncate:3}{$x|escapeUri}\n{/template}\n",
+		"{namespace ui.w}\n/** @param x */\n{template .button}\nb{$x}\n{/template}\n/** @param x */\n{template .Button}\nB{$x}\n{/template}\n/** @param x */\n{template .BUTTON}\nBB{$x}\n{/template}\n",
+		"{namespace ui.W}\n/** @param x */\n{template .button}\nWb{$x}\n{/template}\n"},
 }
 
 var jsGlobals = data.Map{"G_MAP": data.Map{"k2": data.Int(2), "k1": data.String("v"), "k3": data.List{data.Int(1)}}, "G_STR": data.String("s")}
